@@ -9,7 +9,17 @@ namespace Bridge.C14
 /-- the PBN deal string written from any first seat decodes back to the same four hands -/
 theorem pbn_round_trip (h : Hands) (hd : PartialDeal h) (first : Seat) :
     ∃ s, toPbn? h first = some s ∧ ∃ h', convertPbn? s = some h' ∧ SameHands h' h := by
-  sorry
+  refine ⟨_, toPbn_eq h hd.size first, ?_⟩
+  have hp : ∀ p, ∃ l, handParser? (handField (h p)) = some l ∧ l.Perm (h p) := fun p =>
+    handParser_field (h p) (hd.ok p) (hd.nodup_hand p) (hd.size p)
+  have hf : ∀ p, IsField (handField (h p)) := fun p => handField_isField (h p) (hd.ok p) (hd.size p)
+  obtain ⟨c0, p0, q0⟩ := hp first
+  obtain ⟨c1, p1, q1⟩ := hp first.left
+  obtain ⟨c2, p2, q2⟩ := hp first.left.left
+  obtain ⟨c3, p3, q3⟩ := hp first.left.left.left
+  refine ⟨_, convertPbn_fields first _ _ _ _ c0 c1 c2 c3 (hf _) (hf _) (hf _) (hf _) p0 p1 p2 p3, ?_⟩
+  intro p
+  cases first <;> cases p <;> assumption
 
 /-- the PBN text is canonical: `<first>:` then the four hands in rotation separated by one space; an unknown
 hand is `-`; otherwise 16 characters: the spade, heart, diamond and club holdings separated by dots, each
@@ -28,38 +38,62 @@ theorem pbn_canonical (h : Hands) (hd : PartialDeal h) (first : Seat) :
               (suitRanksDesc (h p) .C).map (fun r => (rankChar? r).getD '?') ∧
           ∀ su, StrictDesc (suitRanksDesc (h p) su) ∧
             ∀ r, r ∈ suitRanksDesc (h p) su ↔ (⟨r, su⟩ : Card) ∈ h p) := by
-  sorry
+  refine ⟨_, _, _, _, toPbn_eq h hd.size first, handToPbn_field _ (hd.size _), handToPbn_field _ (hd.size _),
+    handToPbn_field _ (hd.size _), handToPbn_field _ (hd.size _), ?_⟩
+  intro p f hf
+  rw [handToPbn_field _ (hd.size p)] at hf
+  cases hf
+  refine ⟨?_, ?_⟩
+  · intro he
+    simp [handField, he]
+  · intro hne
+    have h13 : (h p).length = 13 := by
+      rcases hd.size p with h0 | h13
+      · exact absurd (List.length_eq_zero_iff.1 h0) hne
+      · exact h13
+    refine ⟨handField_length _ (hd.ok p) h13, ?_, fun su =>
+      ⟨suitRanksDesc_strict _ (hd.ok p) (hd.nodup_hand p) su, mem_suitRanksDesc _ su⟩⟩
+    rw [handField, if_neg (by omega)]
+    simp only [suitRanksDesc_map, List.append_assoc, List.cons_append, List.nil_append]
 
 /-- the 52-slot vectors (tuple form) decode back to the same hands -/
 theorem binary_round_trip (h : Hands) (hd : PartialDeal h) :
     SameHands (convertBinary (toBinary h)) h ∧
     ∀ p, (toBinary h p).length = 52 ∧ ∀ x ∈ toBinary h p, x = 0 ∨ x = 1 := by
-  sorry
+  refine ⟨fun p => ?_, fun p => ⟨toBinary_length h p, toBinary_bits h p⟩⟩
+  exact (List.perm_ext_iff_of_nodup (convertBinary_nodup _ p) (hd.nodup_hand p)).2
+    (mem_convertBinary h hd p)
 
 /-- the numpy form decodes back to the same hands -/
 theorem np_binary_round_trip (h : Hands) (hd : PartialDeal h) :
     SameHands (convertNpBinary (toBinary h)) h := by
-  sorry
+  intro p
+  exact (List.perm_ext_iff_of_nodup (convertNpBinary_nodup _ p) (hd.nodup_hand p)).2
+    (mem_convertNpBinary h hd.ok p)
 
 /-- the JSON card lists decode back to the same hands -/
 theorem json_round_trip (h : Hands) (hd : PartialDeal h) (p : Seat) :
     ∃ l, handOfJson? (dealToJson h p) = some l ∧ l.Perm (h p) := by
-  sorry
+  have hp := sortAsc_perm (h p)
+  refine ⟨sortAsc (h p), ?_, hp⟩
+  rw [handOfJson?, dealToJson, mapM_strToCard _ fun c hc => hd.ok p c (hp.mem_iff.1 hc)]
+  simp only [Option.map_some]
+  rw [dedup_of_nodup _ (hp.nodup_iff.2 (hd.nodup_hand p))]
 
 /-- JSON cards are listed in ascending card order -/
 theorem json_cards_ascending (h : Hands) (hd : PartialDeal h) (p : Seat) :
     ∃ l : List Card, dealToJson h p = l.map cardStr ∧ l.Perm (h p) ∧ l.Pairwise fun a b => a.idx < b.idx := by
-  sorry
+  exact ⟨sortAsc (h p), rfl, sortAsc_perm (h p), sortAsc_strict (h p) (hd.ok p) (hd.nodup_hand p)⟩
 
 /-- the random dealer returns four disjoint 13-card hands covering the pack, whatever permutation
 `random.shuffle` produces -/
 theorem random_deal_is_partition (l : List Card) (hp : l.Perm freshPack) :
     PartialDeal (dealOfList l) ∧ (∀ p, (dealOfList l p).length = 13) ∧
     (handsAll (dealOfList l)).Perm Card.deck := by
-  sorry
+  exact dealOfList_partial l hp
 
 theorem fresh_pack_is_the_deck : freshPack.Perm Card.deck ∧ freshPack.length = 52 := by
-  sorry
+  exact ⟨freshPack_perm_deck, by decide⟩
 
 /-! ### non-vacuity: a complete deal with a void and a 13-card suit, and a partial deal -/
 def exDeal : Hands := fun p => match p with
